@@ -49,6 +49,9 @@ def catalogue(rng):
         ("switch_on_next(just,interval)", ["op", "switch_on_next", [], ["just", 1], iv], d, None),
         ("switch_on_next(empty,timer)", ["op", "switch_on_next", [], ["empty"], ["timer", d]], d, None),
         ("concat(error,interval)", ["op", "concat", [], ["error", 5], iv], d, None),
+        # a deadline driven by the synchronous scheduler runs on the thread that delivered the item - here a subscribe_on worker, which
+        # must come back from the item's next() once TimedOut has been delivered, and exit
+        ("subscribe_on(timeout_sync(just))", ["op", "subscribe_on", [], ["op", "timeout_sync", [d], ["op", "concat", [], ["just", 1], ["never"]]]], d, None),
         ("amb(just,observe_on(interval))", ["op", "amb", [], ["just", 7], ["op", "observe_on", [], iv]], d, None),
         ("take_until(observe_on(subscribe_on(interval)),just)", ["op", "take_until", [], ["op", "observe_on", [], ["op", "subscribe_on", [], iv]], ["just", 1]], d, None),
         ("take(merge(just,observe_on(interval)))", ["op", "take", [1], ["op", "merge", [], ["just", 7], ["op", "observe_on", [], iv]]], d, None),
